@@ -30,20 +30,28 @@ FATALS = (0x81, 0x83, 0x84, 0x85, 0x86, 0x87, 0x88, 0x89, 0x8a, 0x8b, 0x8c, 0x8e
 REAL_SEQMOD = 0x10000
 
 
+def payload(cmd, burst, n):
+    return bytes(bytearray((cmd * 7 + burst * 13 + i) & 0xff for i in range(n)))
+
+
 class Codec(object):
     """requests and replies in the real packet layout (rig's own SCPPacket); command c of call b travels with
-    arg1 = c, arg2 = b, and its reply carries the same two numbers plus the number of the transmission it answers"""
+    arg1 = c, arg2 = b, and its reply carries the same two numbers plus the number of the transmission it answers,
+    followed by pay[(b, c)] bytes of data (never more than the data buffer size the call was given)"""
+
+    def __init__(self, pay=None):
+        self.pay = pay or {}
 
     @staticmethod
     def request(data):
         p = SCPPacket.from_bytestring(data, n_args=3)
         return p.seq, p.arg1, p.arg2
 
-    @staticmethod
-    def reply(seq, rc, cmd, burst, txid):
+    def reply(self, seq, rc, cmd, burst, txid):
         return SCPPacket(reply_expected=False, tag=0xff, dest_port=7, dest_cpu=31, src_port=0, src_cpu=3,
                          dest_x=0, dest_y=0, src_x=1, src_y=2, cmd_rc=rc, seq=seq,
-                         arg1=cmd, arg2=burst, arg3=txid, data=b"").bytestring
+                         arg1=cmd, arg2=burst, arg3=txid,
+                         data=payload(cmd, burst, self.pay.get((burst, cmd), 0))).bytestring
 
 
 def _guarded_seqs(gen, net, limit):
@@ -64,7 +72,9 @@ def run_connection(spec, fates, default=None, overs=(), lifetime=True, label="",
         # "always terminates", observed: a call needs about 3 select() calls per transmission and one per datagram
         # read (measured maximum on the unchanged tree: see evidence, max_selects_per_call); the bound is over 10 times that
         max_selects = 200 + 40 * max(b["n"] for b in spec["bursts"]) * spec["tries"]
-    net = VirtualNet(Codec, fates=fates, default=default, overs=overs, lifetime=lifetime, max_selects=max_selects,
+    # replies carry data: pay[c-1] bytes for command c of a call, within the call's data buffer size
+    pays = {(b, c): n for b, bs in enumerate(spec["bursts"], 1) for c, n in enumerate(bs.get("pay", ()), 1)}
+    net = VirtualNet(Codec(pays), fates=fates, default=default, overs=overs, lifetime=lifetime, max_selects=max_selects,
                      seqmod=spec["seqmod"])
     ev = net.events
     net.install(scp_connection)
@@ -84,7 +94,10 @@ def run_connection(spec, fates, default=None, overs=(), lifetime=True, label="",
             def make_cb(c):
                 def cb(packet):
                     p = SCPPacket.from_bytestring(packet, n_args=3)
-                    ev.append(["callback", c, p.arg2, p.arg1, p.cmd_rc, net.tick(net.now)])
+                    # last field: 1 if the data handed over is, byte for byte, the data the answering machine put
+                    # in the reply that names this command and call (mechanical comparison of bytes)
+                    ev.append(["callback", c, p.arg2, p.arg1, p.cmd_rc, net.tick(net.now),
+                               int(bytes(p.data) == payload(p.arg1, p.arg2, pays.get((p.arg2, p.arg1), 0)))])
                 return cb
             calls = [scpcall(1, 2, 3, 7, arg1=c, arg2=b, arg3=0, data=b"", callback=make_cb(c),
                              timeout=net.seconds(bs["extra"][c - 1])) for c in range(1, bs["n"] + 1)]
@@ -92,12 +105,14 @@ def run_connection(spec, fates, default=None, overs=(), lifetime=True, label="",
             try:
                 if via == "scp":
                     # send_scp: the reply handed back to the caller is what a callback would have received
-                    r = conn.send_scp(256, 1, 2, 3, 7, arg1=1, arg2=b, arg3=0, timeout=net.seconds(bs["extra"][0]))
-                    ev.append(["callback", 1, r.arg2, r.arg1, r.cmd_rc, net.tick(net.now)])
+                    r = conn.send_scp(bs.get("buf", 256), 1, 2, 3, 7, arg1=1, arg2=b, arg3=0,
+                                      timeout=net.seconds(bs["extra"][0]))
+                    ev.append(["callback", 1, r.arg2, r.arg1, r.cmd_rc, net.tick(net.now),
+                               int(bytes(r.data) == payload(r.arg1, r.arg2, pays.get((r.arg2, r.arg1), 0)))])
                 elif via == "iter":
-                    conn.send_scp_burst(256, bs["window"], (c for c in calls))
+                    conn.send_scp_burst(bs.get("buf", 256), bs["window"], (c for c in calls))
                 else:
-                    conn.send_scp_burst(256, bs["window"], calls)
+                    conn.send_scp_burst(bs.get("buf", 256), bs["window"], calls)
             except DidNotTerminate:
                 ev.append(["raise", "DidNotTerminate", -1, -1, net.tick(net.now)])
                 break
@@ -116,7 +131,8 @@ def run_connection(spec, fates, default=None, overs=(), lifetime=True, label="",
     finally:
         net.uninstall()
     return dict(t0=spec["t0"], tries=spec["tries"], seqmod=spec["seqmod"],
-                bursts=[dict(n=bs["n"], window=bs["window"], extra=list(bs["extra"]), via=bs.get("via", "list"))
+                bursts=[dict(n=bs["n"], window=bs["window"], extra=list(bs["extra"]), via=bs.get("via", "list"),
+                             buf=bs.get("buf", 256), pay=list(bs.get("pay", ())))
                         for bs in spec["bursts"]],
                 fates=[list(f) for f in net.used], overs=list(overs), lifetime=lifetime, label=label,
                 expired=net.expired, ev=ev)
@@ -218,7 +234,11 @@ def random_connection(rng):
         via = "scp" if n == 1 and rng.random() < 0.6 else rng.choice(("list", "list", "iter"))
         if via == "scp":
             w = 1
-        bursts.append(dict(n=n, window=w, extra=extra, via=via))
+        # the data buffer size given to the call (machines report 256; board controllers and old boot ROMs
+        # others) and the data each reply carries - nothing, a byte, or up to the whole buffer
+        buf = rng.choice((256, 256, 16, 64, 128, 512, 24, 1024))
+        pay = [rng.choice((0, 0, 1, 4, buf // 2, buf - 1, buf)) for _ in range(n)]
+        bursts.append(dict(n=n, window=w, extra=extra, via=via, buf=buf, pay=pay))
     wmax = max(b["window"] for b in bursts)
     seqmod = rng.choice([m for m in (2, 4, 8, 16, 16, REAL_SEQMOD, REAL_SEQMOD) if m > wmax])
     spec = dict(t0=t0, tries=tries, seqmod=seqmod, bursts=bursts)
